@@ -3,7 +3,9 @@
 (*   {"ev":"registry","tid":n,"strategies":[shortName..]}                                           *)
 (*   {"ev":"demux","tid":n,"s":shortName,"nm":1|2,"r1","q1","r2","q2": texts as character codes,     *)
 (*    "acc":bool,"raised":"<ExceptionType>"|"","shape":""|"<type of a non-list result>",            *)
-(*    "out":[{"seq":[..],"qual":[..],"tags":{"bc":[..],"RX":[..],...}}], "inj":0|1}                  *)
+(*    "out":[{"seq":[..],"qual":[..],"tags":{"bc":[..],"RX":[..],...}}], "inj":0|1,                  *)
+(*    "fq": optional, same shape as out: asFastq() of every returned record parsed back,             *)
+(*    "via": "direct" | "cross:<generated for>" | "files:<variant>", "call": keyword arguments}      *)
 (*   {"ev":"summary","tid":n,"per":[{"s","branch","inj","wl","wl_n","attempts","accepted"}]}         *)
 (* Every tag and every emitted slice is recomputed here from the recorded INPUT texts and the table  *)
 (* L; nothing computed by the driver is trusted.  The implementation's reported result is bound to   *)
@@ -26,7 +28,12 @@ DemuxVerdict(e) ==
     ELSE IF e.s \notin Strategies THEN "ok"                \* no layout pinned for it: reported as a note
     ELSE IF ~ InQuantifier(e) THEN "ok"
     ELSE IF e.shape # "" THEN "result_is_not_a_list_of_records"
-    ELSE StrategyVerdict(e.s, InR(e), InQ(e), e.out, Enc, Comp, IsT)
+    ELSE LET v == StrategyVerdict(e.s, InR(e), InQ(e), e.out, Enc, Comp, IsT) IN
+         IF v # "ok" THEN v
+         \* the other end of the hand-over: what TaggedRecord.asFastq() writes for the returned records (header parsed back)
+         ELSE IF "fq" \in DOMAIN e
+              THEN LET w == StrategyVerdict(e.s, InR(e), InQ(e), e.fq, Enc, Comp, IsT) IN IF w = "ok" THEN "ok" ELSE "asFastq:" \o w
+              ELSE "ok"
 
 Verdict(e) == CASE e.ev = "demux" -> DemuxVerdict(e)
                 [] e.ev \in {"registry", "summary"} -> "ok"
